@@ -29,6 +29,20 @@ fn free_addr() -> std::net::SocketAddr {
     std::net::TcpListener::bind("127.0.0.1:0").unwrap().local_addr().unwrap()
 }
 
+/// A port seen free may be taken by another process a moment later.
+async fn listen_free() -> (std::net::SocketAddr, Server) {
+    let mut last = None;
+    for _ in 0..200 {
+        let addr = free_addr();
+        match Server::listen(addr).await {
+            Ok(s) => return (addr, s),
+            Err(e) => last = Some(e),
+        }
+    }
+    eprintln!("tool error: no port to listen on: {last:?}");
+    std::process::exit(2);
+}
+
 fn apply_op(scale: Scale, set: &mut Set2, op: &Value) {
     match op["kind"].as_str().unwrap() {
         "insert" => {
@@ -98,8 +112,7 @@ impl Rig {
     async fn new() -> Self {
         let clock = Clock::new(1);
         let group = KeyspaceGroup::new(Arc::new(MemStore::default()), clock.clone()).await;
-        let addr = free_addr();
-        let server = Server::listen(addr).await.expect("listen");
+        let (addr, server) = listen_free().await;
         server.add_service(ReplicationService::new(group.clone()));
         let client = ReplicationClient::<MemStore>::new(Clock::new(2), Channel::connect(addr));
         Rig { group, client, _server: server, n: 0 }
@@ -351,8 +364,7 @@ pub async fn garbage() {
         },
         _ => ("zeros", vec![0u8; rng.gen_range(1..300)]),
     };
-    let addr = free_addr();
-    let server = Server::listen(addr).await.expect("listen");
+    let (addr, server) = listen_free().await;
     server.add_service(FakeReplication { bytes: bytes.clone() });
     let mut client = ReplicationClient::<MemStore>::new(Clock::new(2), Channel::connect(addr));
     println!("{}", json!({"case": case, "kind": name, "len": bytes.len(), "stage": "calling"}));
